@@ -438,3 +438,18 @@ Qed.
 Theorem pchain_full_eq_all du rs o s : du_native du -> wf_now o ->
   pchain_parser_parse rs (iso8601 rs) du s o = parse_full du rs o s.
 Proof. intros Hd Wn. exact (pchain_full_eq du rs o s (iso8601_native rs) Hd Wn). Qed.
+
+Lemma lift_p_inv r p : lift_p r = Ok (I_p p) -> r = Ok p.
+Proof. destruct r as [q|e]; cbn [lift_p]; [|discriminate]. intros E. injection E as <-. reflexivity. Qed.
+
+Theorem iso8601_native_strong rs s i : iso8601 rs s = Ok i -> native_ok (R_i i) /\ match i with I_p p => p_native p | _ => True end.
+Proof.
+  intros E. split; [exact (iso8601_native rs s i E)|]. destruct i as [p| |]; try exact I. revert E.
+  destruct rs; cbn [iso8601].
+  - unfold rs_iso8601. destruct (existsb is_surrogate s); [discriminate|]. destruct (IsoParse.cur s =? IsoParse.ch_P).
+    + destruct (DurParse.rs_raw s); discriminate.
+    + intros E. apply lift_p_inv in E. exact (rs_parse_iso_native _ _ E).
+  - unfold py_iso8601. cbv zeta. destruct (DurParse.match_duration (fold_str s)) as [m|].
+    + destruct (negb (runs_ok m)); [discriminate|]. destruct (DurParse.py_native (fold_str s)) as [[x ob]|e]; [discriminate|destruct e; discriminate].
+    + intros E. apply lift_p_inv in E. exact (py_parse_iso_native _ _ E).
+Qed.
